@@ -378,6 +378,25 @@ Theorem C19_mdspan_access_inside_buffer : forall (A : Type) (buf : list A) l t e
 Proof. exact mds_get_inside. Qed.
 Print Assumptions C19_mdspan_access_inside_buffer.
 
+(* mdarray over a layout_stride mapping, exhaustive or not: the container every container-creating constructor builds
+   (mdarray(mapping), mdarray(mapping, value)) has exactly REQUIRED-SPAN-SIZE elements and every in-range element access
+   stays inside it; size() elements would not be enough (witness: 2 x 3 with strides (4, 1)) *)
+Theorem C19_mdarray_strided_inside_container : forall t e ss idx, wf_ity t -> wf_ext t e ->
+  in_range idx (extents_list t e) -> length ss = rank e ->
+  Forall (fun s => 0 <= s <= imax t) ss -> stride_required (extents_list t e) ss <= imax t ->
+  exists o, strided_map t (strided_ctor t e ss) idx = Some o
+            /\ mda_strided_container_size t (strided_ctor t e ss) = Some (stride_required (extents_list t e) ss)
+            /\ 0 <= o < stride_required (extents_list t e) ss.
+Proof. exact mdarray_strided_inside_container. Qed.
+Print Assumptions C19_mdarray_strided_inside_container.
+
+Theorem C19_mdarray_strided_needs_required_span :
+  let e := ext_from_pack i32 [None; None] [2; 3] in
+  let m := strided_ctor i32 e [4; 1] in
+  mds_size i32 e = 6 /\ mda_strided_container_size i32 m = Some 7 /\ strided_map i32 m [1; 2] = Some 6.
+Proof. exact mdarray_strided_needs_required_span. Qed.
+Print Assumptions C19_mdarray_strided_needs_required_span.
+
 Theorem C19_mapping_conversion : forall l t1 e1 t2 e2 idx, wf_ity t1 -> wf_ity t2 ->
   extents_list t2 e2 = extents_list t1 e1 -> in_range idx (extents_list t1 e1) ->
   product (extents_list t1 e1) <= imax t1 -> product (extents_list t1 e1) <= imax t2 ->
